@@ -88,10 +88,17 @@ def _filter_problem(sx, fname) -> str:
     for name, (mod_, fn) in model.functions.items():
         params = {a.arg for a in fn.args.args}
         if 'slave' in params and params & {'efficiency', 'friction_coefficient'}:
+            # names that stand for `slave`: itself, and the target of a loop over a literal tuple that mentions it
+            # (`for parameter, gear in (('master', master), ('slave', slave))`)
+            stands = {'slave'}
+            for n in ast.walk(fn):
+                if isinstance(n, ast.For) and isinstance(n.iter, (ast.Tuple, ast.List)) \
+                        and any(isinstance(x, ast.Name) and x.id == 'slave' for x in ast.walk(n.iter)):
+                    stands |= {x.id for x in ast.walk(n.target) if isinstance(x, ast.Name)}
             for n in ast.walk(fn):
                 if isinstance(n, ast.If) and n.body and isinstance(n.body[0], ast.Raise) and isinstance(n.test, ast.UnaryOp) \
                         and isinstance(n.test.op, ast.Not) and isinstance(n.test.operand, ast.Call) \
-                        and ast.unparse(n.test.operand.func) == 'isinstance' and ast.unparse(n.test.operand.args[0]) == 'slave':
+                        and ast.unparse(n.test.operand.func) == 'isinstance' and ast.unparse(n.test.operand.args[0]) in stands:
                     for x in ast.walk(n.test.operand.args[1]):
                         if isinstance(x, ast.Name) and x.id in model.classes:
                             admitted.add(x.id)
@@ -99,7 +106,7 @@ def _filter_problem(sx, fname) -> str:
                       and any(model.is_subclass(c, a) for a in admitted)
                       and model.find_member(c, 'master_gear_efficiency') is not None)
     if not carriers:
-        return 'no class admitted as the slave of a mating was found (relation functions not recognised)'
+        raise CannotDecide('no class admitted as the slave of a mating was found (admission tests of the relation functions not recognised)')
     missing = []
     for c in carriers:
         ok = True
